@@ -7,6 +7,7 @@ CONSTANTS
   DelimKinds = {"nl"}
   HostDelimKinds = {"a12"}
   WithNoop = TRUE
+  WithLim = TRUE
   Codecs = {"bytes", "json"}
   PayAlpha = {1}
   MaxPay = 1
@@ -27,5 +28,5 @@ CONSTANTS
   MaxErr = 1
   AfterDone = 1
 SPECIFICATION FairSpec
-INVARIANTS SinkExact SinkPrefix RoundTrip InRange PosInside NoPanicModuloKnown MeasureNonNeg
+INVARIANTS SinkExact SinkPrefix RoundTrip InRange PosInside NoPanicModuloKnown BuiltinNeverPoisoned MeasureNonNeg
 PROPERTIES Progress WProgress Terminates
